@@ -313,5 +313,5 @@ func main() {
 			"liveness branches `launched == nil` / `registered == nil` are unreachable: StatusConditions() initialises both conditions",
 		},
 	}
-	c.Finish("From KV Require Import C16.Model C16.Check.", "case", "check_all", 1500)
+	c.Finish("From KV Require Import C16.Model C16.Check.", "case", "check_all", 600)
 }
